@@ -57,6 +57,8 @@ def main(tier, rep):
             steps.append(("call", "add", False, None, "all"))
             traces.append(L.run_program(cfg, steps, miss=L.miss_result(cfg)))
     L.validate(rep, traces, relevant, PROP)
+    npool = pool_level(rep, tier)
+    rep.set("pool_level_histories", npool)
     rep.set("evaluations", len(traces))
     rep.set("distinct_nontrivial", len({(t["h"]["kind"], t["cfg"]["idle"], t["cfg"]["max_pool"], t["cfg"]["ignore_exc"]) +
                                         tuple((s[1], s[2], s[3]) for s in t["steps"]) for t in traces
@@ -68,3 +70,94 @@ def main(tier, rep):
         rep.sample({"cfg": {k: t["cfg"][k] for k in ("kind", "idle", "max_pool", "ignore_exc")}, "program": t["steps"]})
     rep.assumptions += ["sequential use: one call at a time (concurrent use is C08)",
                         "connection identity = socket identity at the socket_module seam"]
+
+
+def pool_level(rep, tier):
+    """The pool beneath PooledClient with SEVERAL connections outstanding (what overlapping calls produce):
+    every sequence over {get, release i, destroy i, tick} up to a length bound on the real ObjectPool with an
+    idle timeout, validated by TLC against spec/PoolRule.tla (idle-expired connections are closed, never
+    handed out; healthy ones are reused; nothing closed twice)."""
+    import itertools
+    from pymemcache import pool as P
+    from lib import tlc
+    length = 7 if tier == "quick" else 8
+    alphabet = ["G", "R0", "R1", "R2", "D0", "D1", "T2", "T4"]
+    traces = []
+    for idle, maxsize in ((5, 3), (5, 2), (0, 2)):
+        for seq in itertools.product(alphabet, repeat=length):
+            # prune: releases/destroys must refer to a held connection
+            held = 0
+            ok = True
+            for a in seq:
+                if a == "G":
+                    held += 1
+                elif a[0] in "RD":
+                    if int(a[1]) >= held:
+                        ok = False
+                        break
+                    held -= 1
+            if not ok or seq[0] != "G" or seq.count("G") < 2 or not any(a[0] == "T" for a in seq):
+                continue
+            vclock.set_now(9_000_000)
+            ids = {}
+            ev = []
+
+            class Obj:
+                pass
+
+            def oid(o):
+                return ids.setdefault(id(o), len(ids) + 1)
+            keep = []
+
+            def creator():
+                o = Obj()
+                keep.append(o)
+                ev.append({"e": "create", "t": 1, "o": oid(o)})
+                return o
+            pool = P.ObjectPool(creator, after_remove=lambda o: ev.append({"e": "close", "t": 1, "o": oid(o)}),
+                                max_size=maxsize, idle_timeout=idle)
+            mine = []
+
+            def snap():
+                ev.append({"e": "snap", "used": [oid(o) for o in pool.used], "free": [oid(o) for o in pool.free]})
+            for a in seq:
+                if a == "G":
+                    ev.append({"e": "call", "t": 1, "m": "get", "o": 0})
+                    try:
+                        o = pool.get()
+                    except RuntimeError as e:
+                        ev.append({"e": "raise", "t": 1, "m": "get", "x": "capacity" if "Too many" in str(e) else "other"})
+                        snap()
+                        continue
+                    mine.append(o)
+                    snap()
+                    ev.append({"e": "ret", "t": 1, "m": "get", "o": oid(o)})
+                elif a[0] in "RD":
+                    i = int(a[1])
+                    if i >= len(mine):
+                        continue
+                    o = mine.pop(i)
+                    m = "release" if a[0] == "R" else "destroy"
+                    ev.append({"e": "call", "t": 1, "m": m, "o": oid(o)})
+                    getattr(pool, m)(o)
+                    snap()
+                    ev.append({"e": "ret", "t": 1, "m": m, "o": oid(o)})
+                else:
+                    d = int(a[1])
+                    vclock.advance(d)
+                    ev.append({"e": "tick", "d": d})
+            traces.append({"h": {"max": maxsize, "idle": idle, "maxrej": 3}, "ev": ev, "seq": seq})
+    import random
+    if tier == "quick" and len(traces) > 9000:
+        random.Random(common.seed()).shuffle(traces)
+        traces = traces[:9000]
+    acc, rej, st, _ = tlc.validate_traces("PoolTrace", [{"h": t["h"], "ev": t["ev"]} for t in traces], chunk=5000)
+    rep.add("traces_validated_against_impl", len(traces))
+    rep.add("trace_states", st)
+    for i, lst in sorted(rej.items()):
+        t = traces[i]
+        pos, clauses = lst[0]
+        cl = ",".join(sorted(x.strip().strip('"') for x in clauses.strip("{}").split(",")))
+        rep.violation(f"C09/pool-level/{cl}", f"ObjectPool(max={t['h']['max']}, idle_timeout={t['h']['idle']}) sequence {t['seq']}: "
+                      f"event {pos} {t['ev'][pos - 1]} rejected: {cl}", {"seq": t["seq"], "header": t["h"], "events": t["ev"]})
+    return len(traces)
